@@ -443,7 +443,8 @@ def rule_f(ctx: Ctx) -> None:
                 binds = [st.value for st in (walk_no_nested(f0.node) if f0 else []) if isinstance(st, ast.Assign) and len(st.targets) == 1 and norm(st.targets[0]) == lo.id]
                 if len(binds) == 1:
                     lo = binds[0]
-            subs = [x for x in ast.walk(lo) if isinstance(x, ast.BinOp) and isinstance(x.op, ast.Sub) and not (isinstance(x.left, ast.Constant) and isinstance(x.right, ast.Constant))]
+            # a *window*: an offset minus a variable width (constant offsets such as `self._current - 1` are cursor arithmetic, rule C13.a)
+            subs = [x for x in ast.walk(lo) if isinstance(x, ast.BinOp) and isinstance(x.op, ast.Sub) and not isinstance(x.right, ast.Constant)]
             if not subs:
                 continue
             n += 1
